@@ -143,6 +143,33 @@ def one(ctx, w, cfg, j):
     return statement_problems(ctx, w, cfg, jj, snaps, before, after), after
 
 
+def corpus():
+    """fixed cases that run first (seeded C08-c: `onfail` decided by "this worker has rejects" instead of "the push stopped
+    early"): a push that stops early under --backup onfail writes the backups of EVERY applied patch - also for files
+    handled by a worker that has no reject, also when the failing patch leaves no reject at all (a rename onto an
+    existing file)"""
+    F = lambda d, m=0o644: (d, m)
+    out = []
+    base = l3gen.default_cfg()
+    base["backup"] = "O"
+    base["count"] = -1
+    w1 = {"files": {b"f": F(b"a\nb\n"), b"g": F(b"x\n"), b"h": F(b"k\n", 0o600)}, "dirs": [], "applied": None,
+          "series": b"p1.patch\np2.patch\np3.patch\n",
+          "patches": {b"p1.patch": b"--- a/f\n+++ b/f\n@@ -1,2 +1,2 @@\n-a\n+A\n b\n--- a/h\n+++ b/h\n@@ -1 +1 @@\n-k\n+K\n",
+                      b"p2.patch": b"--- a/f\n+++ b/f\n@@ -1,2 +1,2 @@\n A\n-b\n+B\n",
+                      b"p3.patch": b"--- a/g\n+++ b/g\n@@ -1 +1 @@\n-does not match\n+y\n"}}
+    w2 = {"files": {b"f": F(b"a\n"), b"g": F(b"x\n"), b"taken": F(b"there\n")}, "dirs": [], "applied": None,
+          "series": b"p1.patch\np2.patch\n",
+          "patches": {b"p1.patch": b"--- a/f\n+++ b/f\n@@ -1 +1 @@\n-a\n+A\n",
+                      b"p2.patch": b"diff --git a/g b/taken\nsimilarity index 100%\nrename from g\nrename to taken\n"}}
+    for w in (w1, w2):
+        for th in (1, 2, 4):
+            c = dict(base)
+            c["threads"] = th
+            out.append((w, c, 0))
+    return out
+
+
 def run(ctx):
     rng = ctx.rng
     thorough = ctx.tier == "thorough"
@@ -150,15 +177,19 @@ def run(ctx):
     cases = []
     hist = ctx.coverage.setdefault("input_histogram", collections.Counter())
     bad = 0
-    for _ in range(n):
-        w = l3gen.gen_workspace(rng, npatches=rng.randint(1, 6), fail_prob=0.4)
-        names = l3common.series_names(w)
-        if not names:
-            continue
-        cfg = l3common.rand_cfg(rng, threads=(1, 1, 2, 4))
-        cfg["backup"] = rng.choice("AAON")
-        cfg["count"] = rng.choice([-1, 0, 1, 2, 3, 100])
-        j = rng.choice([0, 0, rng.randint(0, len(names) - 1)])
+    for item in corpus() + [None] * n:
+        if item is not None:
+            w, cfg, j = item
+            names = l3common.series_names(w)
+        else:
+            w = l3gen.gen_workspace(rng, npatches=rng.randint(1, 6), fail_prob=0.4)
+            names = l3common.series_names(w)
+            if not names:
+                continue
+            cfg = l3common.rand_cfg(rng, threads=(1, 1, 2, 4))
+            cfg["backup"] = rng.choice("AAON")
+            cfg["count"] = rng.choice([-1, 0, 1, 2, 3, 100])
+            j = rng.choice([0, 0, rng.randint(0, len(names) - 1)])
         hist["prior_applied=%d" % min(j, 3)] += 1
         hist["backup=%s" % cfg["backup"]] += 1
         hist["count=%d" % cfg["count"]] += 1
